@@ -212,6 +212,9 @@ def sampledOut (sampling : Option Nat) (override : Option Bool) (draw : Nat) : B
     | none, true => true
     | _, _ => false
 
+/-- `target.is_empty()` (a named test: see the builder guide on `simp` and Boolean tests). -/
+def emptyTarget (t : String) : Bool := t.isEmpty
+
 /-- The value of the `Location` filter: the target plus the skipped query parameters. -/
 def locationValue (target : String) (q : Req) : String :=
   match q.skippedQueryParams with
@@ -243,7 +246,7 @@ def fromRouteRule (r : Rule) (q : Req) (draw : Nat) : Option Action × Bool × B
       match r.target with
       | none => []
       | some target =>
-        if target.isEmpty then []
+        if emptyTarget target then []
         else [{ filter := { action := "override", value := locationValue target q, header := "Location",
                             id := r.redirectUnitId, targetHash := r.targetHash },
                 onResponseStatusCodes := onCodes, excludeResponseStatusCodes := excl,
@@ -530,7 +533,7 @@ def logOverrideOf (p : Rule) (fb : Option Rule) : LogOverride := {
 /-- The header filters a rule contributes: `Location` override first (non-empty target), then its own. -/
 def ruleHeaderFilters (q : Req) (r : Rule) : List HeaderFilterAction :=
   ((match r.target with
-    | some t => if t.isEmpty then [] else
+    | some t => if emptyTarget t then [] else
         [({ action := "override", header := "Location", value := locationValue t q,
             id := r.redirectUnitId, targetHash := r.targetHash } : HeaderFilter)]
     | none => []) ++ r.headerFilters.getD []).map fun f =>
